@@ -1146,7 +1146,7 @@ def _expr(cfg, rng):
 
 TREE_LEAVES = ['id', 'scale', 'mult', 'const', 'square', 'sin', 'proxl1',
                'proxl2sq', 'proxl2g', 'proxlinf', 'proxbox', 'proxccl1',
-               'proxtrans', 'zero', 'stencil', 'stencil']
+               'proxtrans', 'zero', 'stencil', 'stencil', 'repart', 'repart']
 
 
 def _gen_tree(rng, depth, leaves=None):
@@ -1191,6 +1191,10 @@ def _build_tree(t, S, cfg):
             return o.ufunc_ops.square(S)
         if kind == 'sin':
             return o.ufunc_ops.sin(S)
+        if kind == 'repart':
+            # on a real space RealPart hands back its input (a result that is
+            # a view of x): wrappers must not write into what they get back
+            return o.RealPart(S)
         if kind == 'proxl1':
             return F.L1Norm(S).proximal(0.7)
         if kind == 'proxl2sq':
